@@ -50,6 +50,9 @@ type DB struct {
 	FailReads int
 	// FailWrites > 0 makes that many following INSERTs fail before touching the table
 	FailWrites int
+	// FailPrepares > 0 makes that many following statement preparations fail (the connection hiccups before the
+	// statement reaches the server)
+	FailPrepares int
 	// FailFetch > 0 makes that many following SELECTs be accepted and then fail while the first row is fetched (the
 	// connection drops while the result set is read)
 	FailFetch int
@@ -93,6 +96,9 @@ func (db *DB) Drop() {
 // SetFailReads arms read failures.
 func (db *DB) SetFailReads(n int) { db.mu.Lock(); db.FailReads = n; db.mu.Unlock() }
 
+// SetFailPrepares arms failures of statement preparation.
+func (db *DB) SetFailPrepares(n int) { db.mu.Lock(); db.FailPrepares = n; db.mu.Unlock() }
+
 // SetFailFetch arms failures of the row fetch of accepted SELECTs.
 func (db *DB) SetFailFetch(n int) { db.mu.Lock(); db.FailFetch = n; db.mu.Unlock() }
 
@@ -124,6 +130,13 @@ func (drv) Open(name string) (driver.Conn, error) {
 type conn struct{ db *DB }
 
 func (c *conn) Prepare(q string) (driver.Stmt, error) {
+	c.db.mu.Lock()
+	if c.db.FailPrepares > 0 {
+		c.db.FailPrepares--
+		c.db.mu.Unlock()
+		return nil, errors.New("sqlmini: injected prepare failure: connection reset")
+	}
+	c.db.mu.Unlock()
 	st, err := parse(q, c.db.dialect)
 	if err != nil {
 		return nil, err
